@@ -7,9 +7,21 @@
     the right size, non-empty history) and [vol_inv L] (0 <= min < max, every well in [0, max]);
     [wf_state s] = every labware of the state is [wf_labware].
     From Proofs/LabwareProofs.v: [vols_ok_a items] / [vols_ok_r items] = every volume of the loop items
-    passes [vol_ok] (what [prep_wells_vols] guarantees); [add_items wv comps] = the loop argument of [add]. *)
+    passes [vol_ok] (what [prep_wells_vols] guarantees); [add_items wv comps] = the loop argument of [add].
+
+    Worklist level (audit item M5; proofs in Proofs/WorklistLevelProofs.v).  For [aspirate], [dispense],
+    [evo_aspirate], [evo_dispense], [distribute], [transfer]: (1) POST of an accepted call, (2) the exact
+    conditions of VolumeUnderflowError / VolumeOverflowError, in both directions, (3) what a rejected call
+    leaves behind.  Definitions used there, stated below in this file: [record_error],
+    [remove_underflows_at], [add_overflows_at], [remove_stops_at], [add_stops_at]; from
+    Proofs/PlanProofs.v: [t_src] / [t_dst] / [t_vol] / [t_triples] = the broadcast source ids, destination
+    ids, volumes of a [transfer] call and their zip; from Proofs/WorklistLevelProofs.v: [dist_src a] = the
+    id "A<column+1>" of the source well of [distribute], [transfer_valid] and [dist_ready] = the argument
+    checks of [transfer] / [distribute] pass (spelled out in [C02_transfer_valid_def] / [C02_dist_ready_def]),
+    [transfer_run] = what [transfer] does after the checks (run the plan with [exec], then condense the
+    histories). *)
 From Robo Require Import Prelude Str Wells Utils Labware Tips Records Partition Params Worklist EvoCmd
-  Program Invariants LabwareProofs.
+  Program Invariants LabwareProofs PlanProofs WorklistLevelProofs.
 #[local] Open Scope Q_scope.
 
 (* ------------------------------------------------------------------ preservation *)
@@ -220,6 +232,450 @@ Theorem C02_remove_bad_volume : forall L wells vols label,
 Proof. exact remove_bad_volume. Qed.
 Print Assumptions C02_remove_bad_volume.
 
+(* ================================================================== worklist level (M5) *)
+
+(** errors of the record-writing part of a call (positions, texts, tips, max_volume of the worklist):
+    never a volume-limit error *)
+Definition record_error (e : err) : Prop := e = EReject \/ e = EInvalidOp \/ e = ECompat.
+
+(** VolumeUnderflowError of a removal: the arguments passed validation, [L'] is the labware after the
+    accepted prefix [pre] of the (well, volume) pairs, and the next pair does not fit in [L'] *)
+Definition remove_underflows_at (L : labware) (wells : arr string) (vols : arr xnum) (L' : labware) : Prop :=
+  exists pre w x post i,
+    prep_wells_vols wells vols = Ok (pre ++ (w, x) :: post)%list /\ remove_loop L pre = (L', None) /\
+    lw_index L' w = Some i /\
+    (x = XPInf \/ exists v, x = XQ v /\ 0 <= v /\ vol_at L' i - v < lw_min L).
+
+(** VolumeOverflowError of an addition ([comps_of wv comps] = the compositions paired with the wells) *)
+Definition add_overflows_at (L : labware) (wells : arr string) (vols : arr xnum)
+    (comps : option (list (option composition))) (L' : labware) : Prop :=
+  exists wv pre w x oc post i,
+    prep_wells_vols wells vols = Ok wv /\ length (comps_of wv comps) = length wv /\
+    add_items wv comps = (pre ++ (w, x, oc) :: post)%list /\ add_loop L pre = (L', None) /\
+    lw_index L' w = Some i /\
+    (x = XPInf \/ exists v, x = XQ v /\ 0 <= v /\ lw_max L < vol_at L' i + v).
+
+(** any rejection of a removal with error [e]: either the arguments are refused and nothing happens, or
+    the pairs [pre] before the refused one [it] have been applied *)
+Definition remove_stops_at (L : labware) (wells : arr string) (vols : arr xnum) (L' : labware) (e : err)
+    : Prop :=
+  (prep_wells_vols wells vols = Err EReject /\ L' = L /\ e = EReject) \/
+  exists pre it post,
+    prep_wells_vols wells vols = Ok (pre ++ it :: post)%list /\ remove_loop L pre = (L', None) /\
+    remove_loop L' [it] = (L', Some e).
+
+Definition add_stops_at (L : labware) (wells : arr string) (vols : arr xnum)
+    (comps : option (list (option composition))) (L' : labware) (e : err) : Prop :=
+  (prep_wells_vols wells vols = Err EReject /\ L' = L /\ e = EReject) \/
+  (exists wv, prep_wells_vols wells vols = Ok wv /\ length (comps_of wv comps) <> length wv /\
+              L' = L /\ e = EReject) \/
+  exists wv pre it post,
+    prep_wells_vols wells vols = Ok wv /\ length (comps_of wv comps) = length wv /\
+    add_items wv comps = (pre ++ it :: post)%list /\ add_loop L pre = (L', None) /\
+    add_loop L' [it] = (L', Some e).
+
+(** these predicates are exactly the rejections of the direct calls *)
+Theorem C02_remove_underflow_iff : forall L wells vols label L',
+  remove L wells vols label = (L', Some EUnderflow) <-> remove_underflows_at L wells vols L'.
+Proof. exact remove_underflow_iff. Qed.
+Print Assumptions C02_remove_underflow_iff.
+
+Theorem C02_add_overflow_iff : forall L wells vols label comps L',
+  add L wells vols label comps = (L', Some EOverflow) <-> add_overflows_at L wells vols comps L'.
+Proof. exact add_overflow_iff. Qed.
+Print Assumptions C02_add_overflow_iff.
+
+Theorem C02_remove_rejected_iff : forall L wells vols label L' e,
+  remove L wells vols label = (L', Some e) <-> remove_stops_at L wells vols L' e.
+Proof. exact remove_stopped_iff. Qed.
+Print Assumptions C02_remove_rejected_iff.
+
+Theorem C02_add_rejected_iff : forall L wells vols label comps L' e,
+  add L wells vols label comps = (L', Some e) <-> add_stops_at L wells vols comps L' e.
+Proof. exact add_stopped_iff. Qed.
+Print Assumptions C02_add_rejected_iff.
+
+(** the two argument-check predicates of Proofs/WorklistLevelProofs.v, spelled out (definitional) *)
+Theorem C02_transfer_valid_def : forall s ks kd swells dwells vols label pb Ls Ld mode w,
+  transfer_valid s ks kd swells dwells vols label pb Ls Ld mode w <->
+  (w_dev (st_wl s) <> BaseDev /\
+   nth_error (st_lw s) ks = Some Ls /\ nth_error (st_lw s) kd = Some Ld /\
+   length (t_src swells dwells vols) = length (t_dst swells dwells vols) /\
+   length (t_dst swells dwells vols) = length (t_vol swells dwells vols) /\
+   (forall v, In v (t_vol swells dwells vols) -> 0 <= v) /\
+   (forall x, In x (t_src swells dwells vols) -> lw_index Ls x <> None) /\
+   (forall x, In x (t_dst swells dwells vols) -> lw_index Ld x <> None) /\
+   optimize_partition_by (is_trough (lw_geom Ls)) (is_trough (lw_geom Ld)) pb = Ok mode /\
+   comment (st_wl s) label = (w, None)).
+Proof. exact transfer_valid_def. Qed.
+Print Assumptions C02_transfer_valid_def.
+
+Theorem C02_dist_ready_def : forall s ks kd dwells a Ls Ld v,
+  dist_ready s ks kd dwells a Ls Ld v <->
+  (wf_state s /\ w_dev (st_wl s) <> BaseDev /\
+   nth_error (st_lw s) ks = Some Ls /\ nth_error (st_lw s) kd = Some Ld /\
+   g_vrows (lw_geom Ls) <> None /\ rvol_x (d_volume a) = Some (XQ v) /\ v <= w_max (st_wl s) /\
+   flattenF dwells <> [] /\ (forall w, In w (flattenF dwells) -> lw_index Ld w <> None) /\
+   (Z.to_nat (d_source_column a) < g_cols (lw_geom Ls))%nat).
+Proof. exact dist_ready_def. Qed.
+Print Assumptions C02_dist_ready_def.
+
+(** the arguments of [transfer] that are refused leave the state alone: [transfer_valid] holds for every call
+    that got past the checks (converse: [transfer_valid] implies the call runs its plan) *)
+Theorem C02_transfer_cases : forall s ks kd swells dwells vols label ws pb kw s' e,
+  transfer s ks swells kd dwells vols label ws pb kw = (s', e) ->
+  (s' = s /\ (e = Some EReject \/ e = Some ECompat)) \/
+  exists Ls Ld mode w,
+    transfer_valid s ks kd swells dwells vols label pb Ls Ld mode w /\
+    transfer_run s ks kd swells dwells vols label ws kw mode w = (s', e).
+Proof. exact transfer_cases. Qed.
+Print Assumptions C02_transfer_cases.
+
+Theorem C02_transfer_valid_runs : forall s ks kd swells dwells vols label ws pb kw Ls Ld mode w,
+  transfer_valid s ks kd swells dwells vols label pb Ls Ld mode w ->
+  transfer s ks swells kd dwells vols label ws pb kw
+  = transfer_run s ks kd swells dwells vols label ws kw mode w.
+Proof. exact transfer_valid_eq. Qed.
+Print Assumptions C02_transfer_valid_runs.
+
+(* ------------------------------------------------------------------ (1) POST of accepted worklist calls *)
+
+(** [aspirate]: every addressed well exists and holds between min_volume and max_volume *)
+Theorem C02_aspirate_post : forall s k wells vols label kw s',
+  aspirate s k wells vols label kw = (s', None) -> wf_state s ->
+  exists L L', nth_error (st_lw s) k = Some L /\ nth_error (st_lw s') k = Some L' /\
+    lw_geom L' = lw_geom L /\ lw_min L' = lw_min L /\ lw_max L' = lw_max L /\
+    forall w, In w (flattenF wells) ->
+      exists i, lw_index L' w = Some i /\ (i < length (lw_vols L'))%nat /\
+                lw_min L' <= vol_at L' i /\ vol_at L' i <= lw_max L'.
+Proof. exact aspirate_post. Qed.
+Print Assumptions C02_aspirate_post.
+
+Theorem C02_evo_aspirate_post : forall s k a label s',
+  evo_aspirate s k a label = (s', None) -> wf_state s ->
+  exists L L', nth_error (st_lw s) k = Some L /\ nth_error (st_lw s') k = Some L' /\
+    lw_geom L' = lw_geom L /\ lw_min L' = lw_min L /\ lw_max L' = lw_max L /\
+    forall w, In w (flattenF (c_wells a)) ->
+      exists i, lw_index L' w = Some i /\ (i < length (lw_vols L'))%nat /\
+                lw_min L' <= vol_at L' i /\ vol_at L' i <= lw_max L'.
+Proof. exact evo_aspirate_post. Qed.
+Print Assumptions C02_evo_aspirate_post.
+
+(** [dispense]: every addressed well exists and holds between 0 and max_volume *)
+Theorem C02_dispense_post : forall s k wells vols label comps kw s',
+  dispense s k wells vols label comps kw = (s', None) -> wf_state s ->
+  exists L L', nth_error (st_lw s) k = Some L /\ nth_error (st_lw s') k = Some L' /\
+    lw_geom L' = lw_geom L /\ lw_min L' = lw_min L /\ lw_max L' = lw_max L /\
+    forall w, In w (flattenF wells) ->
+      exists i, lw_index L' w = Some i /\ (i < length (lw_vols L'))%nat /\
+                0 <= vol_at L' i /\ vol_at L' i <= lw_max L'.
+Proof. exact dispense_post. Qed.
+Print Assumptions C02_dispense_post.
+
+Theorem C02_evo_dispense_post : forall s k a label comps s',
+  evo_dispense s k a label comps = (s', None) -> wf_state s ->
+  exists L L', nth_error (st_lw s) k = Some L /\ nth_error (st_lw s') k = Some L' /\
+    lw_geom L' = lw_geom L /\ lw_min L' = lw_min L /\ lw_max L' = lw_max L /\
+    forall w, In w (flattenF (c_wells a)) ->
+      exists i, lw_index L' w = Some i /\ (i < length (lw_vols L'))%nat /\
+                0 <= vol_at L' i /\ vol_at L' i <= lw_max L'.
+Proof. exact evo_dispense_post. Qed.
+Print Assumptions C02_evo_dispense_post.
+
+(** the lower bound min_volume is a property of removals only: after an accepted [dispense] an addressed
+    well may still be below min_volume (a well that started below it) *)
+Theorem C02_dispense_post_min_refuted :
+  exists s k wells vols label comps kw s',
+    dispense s k wells vols label comps kw = (s', None) /\ wf_state s /\
+    ~ (exists L L', nth_error (st_lw s) k = Some L /\ nth_error (st_lw s') k = Some L' /\
+         lw_geom L' = lw_geom L /\ lw_min L' = lw_min L /\ lw_max L' = lw_max L /\
+         forall w, In w (flattenF wells) ->
+           exists i, lw_index L' w = Some i /\ (i < length (lw_vols L'))%nat /\
+                     lw_min L' <= vol_at L' i /\ vol_at L' i <= lw_max L').
+Proof. exact dispense_post_min_refuted. Qed.
+Print Assumptions C02_dispense_post_min_refuted.
+
+(** [distribute]: the source well (labware [ks]) is still at or above min_volume and every destination well
+    (labware [kd]) within [0, max_volume]; [Lsf], [Ldf] are the two labware after the call *)
+Theorem C02_distribute_post : forall s ks kd dwells a s',
+  distribute s ks kd dwells a = (s', None) -> wf_state s ->
+  exists Ls Ld Lsf Ldf,
+    nth_error (st_lw s) ks = Some Ls /\ nth_error (st_lw s) kd = Some Ld /\
+    nth_error (st_lw s') ks = Some Lsf /\ nth_error (st_lw s') kd = Some Ldf /\
+    (lw_geom Lsf = lw_geom Ls /\ lw_min Lsf = lw_min Ls /\ lw_max Lsf = lw_max Ls) /\
+    (lw_geom Ldf = lw_geom Ld /\ lw_min Ldf = lw_min Ld /\ lw_max Ldf = lw_max Ld) /\
+    (exists i, lw_index Lsf (dist_src a) = Some i /\ (i < length (lw_vols Lsf))%nat /\
+               lw_min Lsf <= vol_at Lsf i /\ vol_at Lsf i <= lw_max Lsf) /\
+    forall w, In w (flattenF dwells) ->
+      exists i, lw_index Ldf w = Some i /\ (i < length (lw_vols Ldf))%nat /\
+                0 <= vol_at Ldf i /\ vol_at Ldf i <= lw_max Ldf.
+Proof. exact distribute_post. Qed.
+Print Assumptions C02_distribute_post.
+
+(** [transfer]: all source and destination wells exist and are within [0, max_volume]; every source well
+    from which a positive volume was requested is at or above min_volume (a request of volume 0 plans no
+    step; with auto_split the plan needs a positive max_volume, see C14_transfer_ledger_refuted) *)
+Theorem C02_transfer_post : forall s ks kd swells dwells vols label ws pb kw s',
+  transfer s ks swells kd dwells vols label ws pb kw = (s', None) -> wf_state s ->
+  exists Ls Ld Lsf Ldf,
+    nth_error (st_lw s) ks = Some Ls /\ nth_error (st_lw s) kd = Some Ld /\
+    nth_error (st_lw s') ks = Some Lsf /\ nth_error (st_lw s') kd = Some Ldf /\
+    (lw_geom Lsf = lw_geom Ls /\ lw_min Lsf = lw_min Ls /\ lw_max Lsf = lw_max Ls) /\
+    (lw_geom Ldf = lw_geom Ld /\ lw_min Ldf = lw_min Ld /\ lw_max Ldf = lw_max Ld) /\
+    (forall x, In x (t_src swells dwells vols) ->
+       exists i, lw_index Lsf x = Some i /\ (i < length (lw_vols Lsf))%nat /\
+                 0 <= vol_at Lsf i /\ vol_at Lsf i <= lw_max Lsf) /\
+    (forall x, In x (t_dst swells dwells vols) ->
+       exists i, lw_index Ldf x = Some i /\ (i < length (lw_vols Ldf))%nat /\
+                 0 <= vol_at Ldf i /\ vol_at Ldf i <= lw_max Ldf) /\
+    (w_autosplit (st_wl s) = false \/ 0 < w_max (st_wl s) ->
+     forall sw dw v, In (sw, dw, v) (t_triples swells dwells vols) -> 0 < v ->
+       exists i, lw_index Lsf sw = Some i /\ lw_min Lsf <= vol_at Lsf i).
+Proof. exact transfer_post. Qed.
+Print Assumptions C02_transfer_post.
+
+(** limits, geometry, names and array sizes never change, whatever the outcome ([lims L] = these five) *)
+Theorem C02_transfer_limits_unchanged : forall s ks kd swells dwells vols label ws pb kw s' e,
+  transfer s ks swells kd dwells vols label ws pb kw = (s', e) ->
+  map (fun L => (lw_name L, lw_geom L, lw_min L, lw_max L, length (lw_vols L))) (st_lw s') =
+  map (fun L => (lw_name L, lw_geom L, lw_min L, lw_max L, length (lw_vols L))) (st_lw s).
+Proof. exact transfer_lims. Qed.
+Print Assumptions C02_transfer_limits_unchanged.
+
+(* ------------------------------------------------------------------ (2) exact error conditions, worklist level *)
+
+(** [aspirate] raises VolumeUnderflowError exactly when the direct removal on labware [k] does; the state is
+    then the one with the accepted prefix applied ([set_lw s k L']: worklist and other labware untouched).
+    Argument validation comes first: the right-hand side contains [prep_wells_vols ... = Ok ...]. *)
+Theorem C02_aspirate_underflow : forall s k wells vols label kw s' L,
+  nth_error (st_lw s) k = Some L ->
+  (aspirate s k wells vols label kw = (s', Some EUnderflow) <->
+   exists L', remove_underflows_at L wells vols L' /\ s' = set_lw s k L').
+Proof. exact aspirate_underflow_iff. Qed.
+Print Assumptions C02_aspirate_underflow.
+
+Theorem C02_evo_aspirate_underflow : forall s k a label s' L,
+  nth_error (st_lw s) k = Some L ->
+  (evo_aspirate s k a label = (s', Some EUnderflow) <->
+   exists L', remove_underflows_at L (c_wells a) (evo_vols (c_volume a)) L' /\ s' = set_lw s k L').
+Proof. exact evo_aspirate_underflow_iff. Qed.
+Print Assumptions C02_evo_aspirate_underflow.
+
+Theorem C02_dispense_overflow : forall s k wells vols label comps kw s' L,
+  nth_error (st_lw s) k = Some L ->
+  (dispense s k wells vols label comps kw = (s', Some EOverflow) <->
+   exists L', add_overflows_at L wells vols comps L' /\ s' = set_lw s k L').
+Proof. exact dispense_overflow_iff. Qed.
+Print Assumptions C02_dispense_overflow.
+
+Theorem C02_evo_dispense_overflow : forall s k a label comps s' L,
+  nth_error (st_lw s) k = Some L ->
+  (evo_dispense s k a label comps = (s', Some EOverflow) <->
+   exists L', add_overflows_at L (c_wells a) (evo_vols (c_volume a)) comps L' /\ s' = set_lw s k L').
+Proof. exact evo_dispense_overflow_iff. Qed.
+Print Assumptions C02_evo_dispense_overflow.
+
+(** error classes: a removing call never raises VolumeOverflowError, an adding call never
+    VolumeUnderflowError *)
+Theorem C02_aspirate_no_overflow : forall s k wells vols label kw,
+  snd (aspirate s k wells vols label kw) <> Some EOverflow.
+Proof. exact aspirate_no_overflow. Qed.
+Print Assumptions C02_aspirate_no_overflow.
+
+Theorem C02_evo_aspirate_no_overflow : forall s k a label,
+  snd (evo_aspirate s k a label) <> Some EOverflow.
+Proof. exact evo_aspirate_no_overflow. Qed.
+Print Assumptions C02_evo_aspirate_no_overflow.
+
+Theorem C02_dispense_no_underflow : forall s k wells vols label comps kw,
+  snd (dispense s k wells vols label comps kw) <> Some EUnderflow.
+Proof. exact dispense_no_underflow. Qed.
+Print Assumptions C02_dispense_no_underflow.
+
+Theorem C02_evo_dispense_no_underflow : forall s k a label comps,
+  snd (evo_dispense s k a label comps) <> Some EUnderflow.
+Proof. exact evo_dispense_no_underflow. Qed.
+Print Assumptions C02_evo_dispense_no_underflow.
+
+(** [distribute], VolumeUnderflowError: nothing has happened, and the source well does not hold
+    n * v above its minimum (n = number of destination ids, v = the volume per destination) *)
+Theorem C02_distribute_underflow : forall s ks kd dwells a s',
+  distribute s ks kd dwells a = (s', Some EUnderflow) ->
+  s' = s /\
+  exists Ls v i, nth_error (st_lw s) ks = Some Ls /\ rvol_x (d_volume a) = Some (XQ v) /\
+    lw_index Ls (dist_src a) = Some i /\
+    vol_at Ls i - inject_Z (Z.of_nat (length (flattenF dwells))) * v < lw_min Ls.
+Proof. exact distribute_underflow. Qed.
+Print Assumptions C02_distribute_underflow.
+
+(** the converse, given that the argument checks pass ([dist_ready]) and the volume is not negative *)
+Theorem C02_distribute_underflow_conv : forall s ks kd dwells a Ls Ld v i,
+  dist_ready s ks kd dwells a Ls Ld v -> 0 <= v -> lw_index Ls (dist_src a) = Some i ->
+  vol_at Ls i - inject_Z (Z.of_nat (length (flattenF dwells))) * v < lw_min Ls ->
+  distribute s ks kd dwells a = (s, Some EUnderflow).
+Proof. exact distribute_underflow_conv. Qed.
+Print Assumptions C02_distribute_underflow_conv.
+
+(** [distribute], VolumeOverflowError: the source has been drained by n * v and its history entry written
+    ([Ls']), the destinations before the offending one have been filled ([Ld']), no record is written *)
+Theorem C02_distribute_overflow : forall s ks kd dwells a s',
+  distribute s ks kd dwells a = (s', Some EOverflow) ->
+  exists Ls Ld v Ls' c Ld1 Ld',
+    nth_error (st_lw s) ks = Some Ls /\ nth_error (st_lw s) kd = Some Ld /\
+    rvol_x (d_volume a) = Some (XQ v) /\
+    remove Ls (A0 (dist_src a)) (A0 (xmul_nat (XQ v) (length (flattenF dwells)))) (d_label a) = (Ls', None) /\
+    nth_error (st_lw (set_lw s ks Ls')) kd = Some Ld1 /\
+    add_overflows_at Ld1 (A1 (flattenF dwells)) (A0 (XQ v))
+                     (Some (repeat (Some c) (length (flattenF dwells)))) Ld' /\
+    s' = set_lw (set_lw s ks Ls') kd Ld'.
+Proof. exact distribute_overflow. Qed.
+Print Assumptions C02_distribute_overflow.
+
+Theorem C02_distribute_overflow_conv : forall s ks kd dwells a Ls Ld v Ls' i Ld1 Ld',
+  dist_ready s ks kd dwells a Ls Ld v ->
+  remove Ls (A0 (dist_src a)) (A0 (xmul_nat (XQ v) (length (flattenF dwells)))) (d_label a) = (Ls', None) ->
+  lw_index Ls' (dist_src a) = Some i ->
+  nth_error (st_lw (set_lw s ks Ls')) kd = Some Ld1 ->
+  add_overflows_at Ld1 (A1 (flattenF dwells)) (A0 (XQ v))
+                   (Some (repeat (Some (well_composition_at Ls' i)) (length (flattenF dwells)))) Ld' ->
+  distribute s ks kd dwells a = (set_lw (set_lw s ks Ls') kd Ld', Some EOverflow).
+Proof. exact distribute_overflow_conv. Qed.
+Print Assumptions C02_distribute_overflow_conv.
+
+(** [transfer], VolumeUnderflowError, both directions: the arguments were accepted ([transfer_valid]), [s']
+    is the state after the planned steps [pre] before the offending one (their liquid moved, their records
+    written), and in [s'] the source well of the next step holds less than min_volume + its volume *)
+Theorem C02_transfer_underflow : forall s ks kd swells dwells vols label ws pb kw s',
+  transfer s ks swells kd dwells vols label ws pb kw = (s', Some EUnderflow) <->
+  exists Ls Ld mode w pre sw dw v post L i,
+    transfer_valid s ks kd swells dwells vols label pb Ls Ld mode w /\
+    plan (w_autosplit w) (w_max w) mode (t_triples swells dwells vols)
+      = (pre ++ Step sw dw v :: post)%list /\
+    exec (set_wl s w) ks kd pre ws kw = (s', None) /\
+    nth_error (st_lw s') ks = Some L /\ lw_index L sw = Some i /\ vol_at L i - v < lw_min L.
+Proof. exact transfer_underflow_iff. Qed.
+Print Assumptions C02_transfer_underflow.
+
+(** [transfer], VolumeOverflowError, both directions: as above, but the aspirate of the offending step has
+    been applied ([s'] is the state after it): the liquid has left the source, the A record is written *)
+Theorem C02_transfer_overflow : forall s ks kd swells dwells vols label ws pb kw s',
+  transfer s ks swells kd dwells vols label ws pb kw = (s', Some EOverflow) <->
+  exists Ls Ld mode w pre sw dw v post s1 L i,
+    transfer_valid s ks kd swells dwells vols label pb Ls Ld mode w /\
+    plan (w_autosplit w) (w_max w) mode (t_triples swells dwells vols)
+      = (pre ++ Step sw dw v :: post)%list /\
+    exec (set_wl s w) ks kd pre ws kw = (s1, None) /\
+    aspirate s1 ks (A0 sw) (A0 (XQ v)) None kw = (s', None) /\
+    nth_error (st_lw s') kd = Some L /\ lw_index L dw = Some i /\ lw_max L < vol_at L i + v.
+Proof. exact transfer_overflow_iff. Qed.
+Print Assumptions C02_transfer_overflow.
+
+(* ------------------------------------------------------------------ (3) what a rejected call leaves behind *)
+
+(** in every state reached by any call, accepted or rejected, every well of every labware is within
+    [0, max_volume] (with [C02_step_preserves]: all labware stay well-formed) *)
+Theorem C02_step_wells : forall s o j L i, wf_state s ->
+  nth_error (st_lw (fst (step s o))) j = Some L -> 0 <= vol_at L i /\ vol_at L i <= lw_max L.
+Proof. exact step_wells. Qed.
+Print Assumptions C02_step_wells.
+
+(** a rejected [aspirate]: either the removal itself was rejected - then the state is [set_lw s k L'] with
+    [L'] the labware after the accepted prefix (history and worklist unchanged) - or the removal was
+    accepted in full (volumes removed, history entry written) and the record part raised *)
+Theorem C02_aspirate_rejected : forall s k wells vols label kw s' e L,
+  aspirate s k wells vols label kw = (s', Some e) -> nth_error (st_lw s) k = Some L ->
+  (exists L', remove_stops_at L wells vols L' e /\ s' = set_lw s k L' /\ lw_hist L' = lw_hist L /\
+              (e = EUnderflow \/ e = EReject)) \/
+  (exists L', remove L wells vols label = (L', None) /\ st_lw s' = upd (st_lw s) k L' /\ record_error e).
+Proof. exact aspirate_rejected. Qed.
+Print Assumptions C02_aspirate_rejected.
+
+Theorem C02_aspirate_rejected_conv : forall s k wells vols label kw L L' e,
+  nth_error (st_lw s) k = Some L -> remove_stops_at L wells vols L' e ->
+  aspirate s k wells vols label kw = (set_lw s k L', Some e).
+Proof. exact aspirate_rejected_conv. Qed.
+Print Assumptions C02_aspirate_rejected_conv.
+
+Theorem C02_evo_aspirate_rejected : forall s k a label s' e L,
+  evo_aspirate s k a label = (s', Some e) -> nth_error (st_lw s) k = Some L ->
+  (exists L', remove_stops_at L (c_wells a) (evo_vols (c_volume a)) L' e /\ s' = set_lw s k L' /\
+              lw_hist L' = lw_hist L /\ (e = EUnderflow \/ e = EReject)) \/
+  (exists L', remove L (c_wells a) (evo_vols (c_volume a)) label = (L', None) /\
+              st_lw s' = upd (st_lw s) k L' /\ record_error e).
+Proof. exact evo_aspirate_rejected. Qed.
+Print Assumptions C02_evo_aspirate_rejected.
+
+Theorem C02_evo_aspirate_rejected_conv : forall s k a label L L' e,
+  nth_error (st_lw s) k = Some L -> remove_stops_at L (c_wells a) (evo_vols (c_volume a)) L' e ->
+  evo_aspirate s k a label = (set_lw s k L', Some e).
+Proof. exact evo_aspirate_rejected_conv. Qed.
+Print Assumptions C02_evo_aspirate_rejected_conv.
+
+Theorem C02_dispense_rejected : forall s k wells vols label comps kw s' e L,
+  dispense s k wells vols label comps kw = (s', Some e) -> nth_error (st_lw s) k = Some L ->
+  (exists L', add_stops_at L wells vols comps L' e /\ s' = set_lw s k L' /\ lw_hist L' = lw_hist L /\
+              (e = EOverflow \/ e = EReject)) \/
+  (exists L', add L wells vols label comps = (L', None) /\ st_lw s' = upd (st_lw s) k L' /\ record_error e).
+Proof. exact dispense_rejected. Qed.
+Print Assumptions C02_dispense_rejected.
+
+Theorem C02_dispense_rejected_conv : forall s k wells vols label comps kw L L' e,
+  nth_error (st_lw s) k = Some L -> add_stops_at L wells vols comps L' e ->
+  dispense s k wells vols label comps kw = (set_lw s k L', Some e).
+Proof. exact dispense_rejected_conv. Qed.
+Print Assumptions C02_dispense_rejected_conv.
+
+Theorem C02_evo_dispense_rejected : forall s k a label comps s' e L,
+  evo_dispense s k a label comps = (s', Some e) -> nth_error (st_lw s) k = Some L ->
+  (exists L', add_stops_at L (c_wells a) (evo_vols (c_volume a)) comps L' e /\ s' = set_lw s k L' /\
+              lw_hist L' = lw_hist L /\ (e = EOverflow \/ e = EReject)) \/
+  (exists L', add L (c_wells a) (evo_vols (c_volume a)) label comps = (L', None) /\
+              st_lw s' = upd (st_lw s) k L' /\ record_error e).
+Proof. exact evo_dispense_rejected. Qed.
+Print Assumptions C02_evo_dispense_rejected.
+
+Theorem C02_evo_dispense_rejected_conv : forall s k a label comps L L' e,
+  nth_error (st_lw s) k = Some L -> add_stops_at L (c_wells a) (evo_vols (c_volume a)) comps L' e ->
+  evo_dispense s k a label comps = (set_lw s k L', Some e).
+Proof. exact evo_dispense_rejected_conv. Qed.
+Print Assumptions C02_evo_dispense_rejected_conv.
+
+(** a rejected [distribute]: nothing happened (arguments refused, or the source does not hold n * v), or the
+    source has been drained and then either the addition stopped at some destination, or both labware
+    were updated in full and the record part raised *)
+Theorem C02_distribute_rejected : forall s ks kd dwells a s' e,
+  distribute s ks kd dwells a = (s', Some e) ->
+  (s' = s /\ (record_error e \/ e = EUnderflow)) \/
+  (exists Ls xv Ls' c Ld1 Ld',
+     nth_error (st_lw s) ks = Some Ls /\ rvol_x (d_volume a) = Some xv /\
+     remove Ls (A0 (dist_src a)) (A0 (xmul_nat xv (length (flattenF dwells)))) (d_label a) = (Ls', None) /\
+     nth_error (st_lw (set_lw s ks Ls')) kd = Some Ld1 /\
+     ((add_stops_at Ld1 (A1 (flattenF dwells)) (A0 xv)
+                    (Some (repeat (Some c) (length (flattenF dwells)))) Ld' e /\
+       (e = EOverflow \/ e = EReject) /\ s' = set_lw (set_lw s ks Ls') kd Ld') \/
+      (add Ld1 (A1 (flattenF dwells)) (A0 xv) (d_label a)
+           (Some (repeat (Some c) (length (flattenF dwells)))) = (Ld', None) /\
+       st_lw s' = st_lw (if (ks =? kd)%nat
+                         then condense_at (set_lw (set_lw s ks Ls') kd Ld') ks 2 (d_label a)
+                         else set_lw (set_lw s ks Ls') kd Ld') /\
+       record_error e))).
+Proof. exact distribute_rejected. Qed.
+Print Assumptions C02_distribute_rejected.
+
+(** a rejected [transfer]: nothing happened (arguments refused), or the planned steps [pre] have been
+    executed in full and the next step failed ([exec_step]: aspirate, then dispense, then the tip action) *)
+Theorem C02_transfer_rejected : forall s ks kd swells dwells vols label ws pb kw s' e,
+  transfer s ks swells kd dwells vols label ws pb kw = (s', Some e) ->
+  (s' = s /\ (e = EReject \/ e = ECompat)) \/
+  exists Ls Ld mode w pre sw dw v post s1,
+    transfer_valid s ks kd swells dwells vols label pb Ls Ld mode w /\
+    plan (w_autosplit w) (w_max w) mode (t_triples swells dwells vols)
+      = (pre ++ Step sw dw v :: post)%list /\
+    exec (set_wl s w) ks kd pre ws kw = (s1, None) /\
+    exec_step s1 ks kd sw dw v ws kw = (s', Some e).
+Proof. exact transfer_rejected. Qed.
+Print Assumptions C02_transfer_rejected.
+
 (* ------------------------------------------------------------------ non-vacuity *)
 
 (** [ex_plate]: 2 x 3 plate, min 10, max 100, every well at 50; [ex_trough]: 8 virtual rows x 2 columns *)
@@ -266,3 +722,93 @@ Example C02_example_run :
   snd r = [None; Some EOverflow] /\
   map lw_vols (st_lw (fst r)) = [[19780; 5000]; [90; 50; 50; 90; 50; 50]].
 Proof. vm_compute. split; reflexivity. Qed.
+
+(* ------------------------------------------------------------------ non-vacuity, worklist level *)
+
+(** observable summary of an outcome: volumes of all labware, error, number of records, history lengths *)
+Definition C02_obs (r : state * option err) : list (list Q) * option err * nat * list nat :=
+  (map lw_vols (st_lw (fst r)), snd r, length (w_recs (st_wl (fst r))),
+   map (fun L => length (lw_hist L)) (st_lw (fst r))).
+
+(** accepted [aspirate] down to exactly min_volume (plate: min 10); comment + two A records *)
+Example C02_example_aspirate_accepted :
+  C02_obs (aspirate C02_ex_state 1 (A1 ["A01"; "B02"]%string) (A0 (XQ 40)) (Some "x"%string) kw_default)
+  = ([[20000; 5000]; [10; 50; 50; 50; 10; 50]], None, 3%nat, [1%nat; 2%nat]).
+Proof. vm_compute. reflexivity. Qed.
+
+(** VolumeUnderflowError at the third pair (A01 again): two pairs applied, no record, no history entry *)
+Example C02_example_aspirate_underflow :
+  C02_obs (aspirate C02_ex_state 1 (A1 ["A01"; "B02"; "A01"]%string) (A1 [XQ 30; XQ 10; XQ 30])
+                    (Some "x"%string) kw_default)
+  = ([[20000; 5000]; [20; 50; 50; 50; 40; 50]], Some EUnderflow, 0%nat, [1%nat; 1%nat]).
+Proof. vm_compute. reflexivity. Qed.
+
+Example C02_example_dispense_overflow :
+  C02_obs (dispense C02_ex_state 1 (A1 ["A01"; "B02"; "A01"]%string) (A1 [XQ 30; XQ 10; XQ 30])
+                    None None kw_default)
+  = ([[20000; 5000]; [80; 50; 50; 50; 60; 50]], Some EOverflow, 0%nat, [1%nat; 1%nat]).
+Proof. vm_compute. reflexivity. Qed.
+
+(** a record error after the labware part was accepted: 960 > max_volume 950 of the worklist; the trough
+    has lost the liquid and gained a history entry, the comment is written, the call raises
+    InvalidOperationError (second case of [C02_aspirate_rejected]) *)
+Example C02_example_aspirate_record_error :
+  C02_obs (aspirate C02_ex_state 0 (A0 "A01"%string) (A0 (XQ 960)) (Some "x"%string) kw_default)
+  = ([[19040; 5000]; [50; 50; 50; 50; 50; 50]], Some EInvalidOp, 1%nat, [2%nat; 1%nat]).
+Proof. vm_compute. reflexivity. Qed.
+
+Definition C02_ex_cmd (ws : list string) (v : Q) : cmdargs :=
+  {| c_wells := A1 ws; c_grid := PInt 1; c_site := PInt 1; c_volume := CVScalar (PV (XQ v));
+     c_liquid_class := PStr "W"; c_tips := [TInt 1; TInt 2]; c_arm := 0%Z |}.
+
+Example C02_example_evo :
+  C02_obs (evo_aspirate C02_ex_state 1 (C02_ex_cmd ["A01"; "B01"]%string 20) None)
+  = ([[20000; 5000]; [30; 50; 50; 30; 50; 50]], None, 1%nat, [1%nat; 2%nat]) /\
+  C02_obs (evo_aspirate C02_ex_state 1 (C02_ex_cmd ["A01"; "B01"]%string 45) None)
+  = ([[20000; 5000]; [50; 50; 50; 50; 50; 50]], Some EUnderflow, 0%nat, [1%nat; 1%nat]) /\
+  C02_obs (evo_dispense C02_ex_state 1 (C02_ex_cmd ["A01"; "B01"]%string 50) None None)
+  = ([[20000; 5000]; [100; 50; 50; 100; 50; 50]], None, 1%nat, [1%nat; 2%nat]) /\
+  C02_obs (evo_dispense C02_ex_state 1 (C02_ex_cmd ["A01"; "B01"]%string 55) None None)
+  = ([[20000; 5000]; [50; 50; 50; 50; 50; 50]], Some EOverflow, 0%nat, [1%nat; 1%nat]).
+Proof. vm_compute. repeat split; reflexivity. Qed.
+
+(** [transfer] plate -> trough, A01 twice with 30: the first step is done (A, D, F records; both histories),
+    the second would leave 20 - 30 < 10: VolumeUnderflowError, state after the first step *)
+Example C02_example_transfer_underflow :
+  C02_obs (transfer C02_ex_state 1 (A1 ["A01"; "A01"]%string) 0 (A1 ["A01"; "A01"]%string) (A1 [30; 30])
+                    None SFlush "auto"%string kw_default)
+  = ([[20030; 5000]; [20; 50; 50; 50; 50; 50]], Some EUnderflow, 3%nat, [2%nat; 2%nat]).
+Proof. vm_compute. reflexivity. Qed.
+
+(** [transfer] trough -> plate, 30 twice into A01: the second dispense would give 110 > 100:
+    VolumeOverflowError; the second aspirate has been applied (trough at 19940, 4 records) *)
+Example C02_example_transfer_overflow :
+  C02_obs (transfer C02_ex_state 0 (A0 "A01"%string) 1 (A1 ["A01"; "A01"]%string) (A0 30)
+                    None SFlush "auto"%string kw_default)
+  = ([[19940; 5000]; [80; 50; 50; 50; 50; 50]], Some EOverflow, 4%nat, [3%nat; 2%nat]).
+Proof. vm_compute. reflexivity. Qed.
+
+Definition C02_ex_dargs (col v : Z) : distargs :=
+  {| d_source_column := col; d_volume := RVInt v; d_diti_reuse := 1; d_multi_disp := 1;
+     d_liquid_class := PStr "W"; d_label := None; d_direction := "left_to_right"%string;
+     d_src_id := PStr ""; d_src_type := PStr ""; d_dst_id := PStr ""; d_dst_type := PStr "" |}.
+
+(** [distribute] from column 2 of the trough (5000, min 1000): accepted; 5 x 900 > 4000: underflow, nothing
+    happens; 2 x 900 into wells at 50 (max 100): overflow, the trough has been drained and logged *)
+Example C02_example_distribute :
+  C02_obs (distribute C02_ex_state 0 1 (A1 ["A02"; "B02"; "A02"]%string) (C02_ex_dargs 1 10))
+  = ([[20000; 4970]; [50; 70; 50; 50; 60; 50]], None, 1%nat, [2%nat; 2%nat]) /\
+  C02_obs (distribute C02_ex_state 0 1 (A1 ["A02"; "B02"; "A01"; "B01"; "A03"]%string) (C02_ex_dargs 1 900))
+  = ([[20000; 5000]; [50; 50; 50; 50; 50; 50]], Some EUnderflow, 0%nat, [1%nat; 1%nat]) /\
+  C02_obs (distribute C02_ex_state 0 1 (A1 ["A02"; "B02"]%string) (C02_ex_dargs 1 900))
+  = ([[20000; 3200]; [50; 50; 50; 50; 50; 50]], Some EOverflow, 0%nat, [2%nat; 1%nat]).
+Proof. vm_compute. repeat split; reflexivity. Qed.
+
+(** the hypotheses of the converse theorems are satisfiable *)
+Example C02_example_dist_ready :
+  dist_ready C02_ex_state 0 1 (A1 ["A02"; "B02"]%string) (C02_ex_dargs 1 900) ex_trough ex_plate 900.
+Proof.
+  unfold dist_ready. split; [exact C02_example_state|]. vm_compute.
+  repeat split; try discriminate; try lia.
+  intros w [<-|[<-|[]]]; discriminate.
+Qed.
